@@ -1,7 +1,7 @@
 (** Protocol operations for C08 (see Lib/Val.v).  Every op takes the word
     width n (1, 2, 4 or 8) as its first argument. *)
 From Coq Require Import ZArith List Bool String.
-From Low Require Import Lib.Bits Lib.BitSeq Lib.Bytes Lib.Val Lib.Pack_bw Model.Bitword Spec.BitwordSpec.
+From Low Require Import Lib.Bits Lib.BitSeq Lib.Bytes Lib.Val Lib.Pack_bw Lib.Lex Model.Bitword Spec.BitwordSpec Spec.BitwordSpecDirect Spec.BitwordSpecWiden.
 Import ListNotations.
 Open Scope string_scope.
 Open Scope Z_scope.
@@ -94,5 +94,124 @@ Definition ops_C08 : list opdef := [
      op_spec := fun_spec (fun a => match a with
        | [n; wss] => match as_z n, as_zss wss with
            | Some n, Some wss => vzss (spec_ToStrs (Z.to_nat n) wss) | _, _ => VBad end
+       | _ => VBad end) |};
+  (* the same four conversions on LARGE inputs (tens of kilobytes: byte/bit/word offsets beyond 2^8 and
+     2^16), judged by the word-by-word reading of Spec/BitwordSpecDirect.v (equal to the chunk reading by
+     the C08_direct theorems), which costs linear time.  Get/large observes Get(s,i) and FromStr(s)[i] together. *)
+  {| op_name := "bitword.Get/large";
+     op_run := fun a => match a with
+       | [n; s; i] => match as_z n, as_zs s, as_z i with
+           | Some n, Some s, Some i =>
+               if width_ok n && str_ok s && (0 <=? i) && (i <? zlen s * (8 / n))
+               then match Get (newBW n) s i, nthZ (FromStr (newBW n) s) i with
+                    | Some x, Some y => vzs [x; y]
+                    | _, _ => VPanic end
+               else VBad
+           | _, _, _ => VBad end
+       | _ => VBad end;
+     op_spec := fun_spec (fun a => match a with
+       | [n; s; i] => match as_z n, as_zs s, as_z i with
+           | Some n, Some s, Some i =>
+               match spec_word (Z.to_nat n) s i with Some x => vzs [x; x] | None => VPanic end
+           | _, _, _ => VBad end
+       | _ => VBad end) |};
+  {| op_name := "bitword.FirstDiff/large";
+     op_run := fun a => match a with
+       | [n; x; y; from; end_] => match as_z n, as_zs x, as_zs y, as_z from, as_z end_ with
+           | Some n, Some x, Some y, Some from, Some end_ =>
+               if width_ok n && str_ok x && str_ok y && (0 <=? from) && (-1 <=? end_)
+               then voz (FirstDiff (newBW n) x y from end_) else VBad
+           | _, _, _, _, _ => VBad end
+       | _ => VBad end;
+     op_spec := fun_spec (fun a => match a with
+       | [n; x; y; from; end_] => match as_z n, as_zs x, as_zs y, as_z from, as_z end_ with
+           | Some n, Some x, Some y, Some from, Some end_ => VZ (spec_FirstDiff_direct (Z.to_nat n) x y from end_)
+           | _, _, _, _, _ => VBad end
+       | _ => VBad end) |};
+  {| op_name := "bitword.FromStr/large";
+     op_run := fun a => match a with
+       | [n; s] => match as_z n, as_zs s with
+           | Some n, Some s => if width_ok n && str_ok s then vzs (FromStr (newBW n) s) else VBad
+           | _, _ => VBad end
+       | _ => VBad end;
+     op_spec := fun_spec (fun a => match a with
+       | [n; s] => match as_z n, as_zs s with
+           | Some n, Some s => vzs (spec_FromStr_seq (Z.to_nat n) s) | _, _ => VBad end
+       | _ => VBad end) |};
+  {| op_name := "bitword.ToStr/large";
+     op_run := fun a => match a with
+       | [n; ws] => match as_z n, as_zs ws with
+           | Some n, Some ws =>
+               if width_ok n && words_inb (Z.to_nat n) ws then vozs (ToStr (newBW n) ws) else VBad
+           | _, _ => VBad end
+       | _ => VBad end;
+     op_spec := fun_spec (fun a => match a with
+       | [n; ws] => match as_z n, as_zs ws with
+           | Some n, Some ws => vzs (spec_ToStr_seq (Z.to_nat n) ws) | _, _ => VBad end
+       | _ => VBad end) |};
+  (* widened (Spec/BitwordSpecWiden.v).  FromStr/cmp is inside the property's domain: the sign of
+     bytes.Compare(FromStr(a), FromStr(b)) is the sign of comparing a and b. *)
+  {| op_name := "bitword.FromStr/cmp";
+     op_run := fun a => match a with
+       | [n; x; y] => match as_z n, as_zs x, as_zs y with
+           | Some n, Some x, Some y =>
+               if width_ok n && str_ok x && str_ok y
+               then VZ (cmp_sign (bytes_cmp (FromStr (newBW n) x) (FromStr (newBW n) y))) else VBad
+           | _, _, _ => VBad end
+       | _ => VBad end;
+     op_spec := fun_spec (fun a => match a with
+       | [n; x; y] => match as_zs x, as_zs y with
+           | Some x, Some y => VZ (spec_FromStr_cmp x y) | _, _ => VBad end
+       | _ => VBad end) |};
+  (* FromStr(ToStr(ws)) on in-range words: ws and the zero words that complete the last byte *)
+  {| op_name := "bitword.FromStr/ToStr";
+     op_run := fun a => match a with
+       | [n; ws] => match as_z n, as_zs ws with
+           | Some n, Some ws =>
+               if width_ok n && words_inb (Z.to_nat n) ws
+               then match ToStr (newBW n) ws with Some s => vzs (FromStr (newBW n) s) | None => VPanic end
+               else VBad
+           | _, _ => VBad end
+       | _ => VBad end;
+     op_spec := fun_spec (fun a => match a with
+       | [n; ws] => match as_z n, as_zs ws with
+           | Some n, Some ws => vzs (spec_FromStr_ToStr (Z.to_nat n) ws) | _, _ => VBad end
+       | _ => VBad end) |};
+  (* the next three observe behaviour OUTSIDE the domain of the C08 statement (index out of range,
+     negative from, words >= 2^n); the generator emits them only when VERIF_C08_WIDE=1 *)
+  {| op_name := "bitword.Get/any";
+     op_run := fun a => match a with
+       | [n; s; i] => match as_z n, as_zs s, as_z i with
+           | Some n, Some s, Some i =>
+               if width_ok n && str_ok s then voz (Get (newBW n) s i) else VBad
+           | _, _, _ => VBad end
+       | _ => VBad end;
+     op_spec := fun_spec (fun a => match a with
+       | [n; s; i] => match as_z n, as_zs s, as_z i with
+           | Some n, Some s, Some i => voz (spec_Get_any (Z.to_nat n) s i) | _, _, _ => VBad end
+       | _ => VBad end) |};
+  {| op_name := "bitword.FirstDiff/any";
+     op_run := fun a => match a with
+       | [n; x; y; from; end_] => match as_z n, as_zs x, as_zs y, as_z from, as_z end_ with
+           | Some n, Some x, Some y, Some from, Some end_ =>
+               if width_ok n && str_ok x && str_ok y
+               then voz (FirstDiff (newBW n) x y from end_) else VBad
+           | _, _, _, _, _ => VBad end
+       | _ => VBad end;
+     op_spec := fun_spec (fun a => match a with
+       | [n; x; y; from; end_] => match as_z n, as_zs x, as_zs y, as_z from, as_z end_ with
+           | Some n, Some x, Some y, Some from, Some end_ => voz (spec_FirstDiff_any (Z.to_nat n) x y from end_)
+           | _, _, _, _, _ => VBad end
+       | _ => VBad end) |};
+  {| op_name := "bitword.ToStr/any";
+     op_run := fun a => match a with
+       | [n; ws] => match as_z n, as_zs ws with
+           | Some n, Some ws =>
+               if width_ok n && str_ok ws then vozs (ToStr (newBW n) ws) else VBad
+           | _, _ => VBad end
+       | _ => VBad end;
+     op_spec := fun_spec (fun a => match a with
+       | [n; ws] => match as_z n, as_zs ws with
+           | Some n, Some ws => vzs (spec_ToStr_any (Z.to_nat n) ws) | _, _ => VBad end
        | _ => VBad end) |}
 ].
